@@ -2722,22 +2722,33 @@ retransmit_all_tcp_requests_for(struct nameserver *server)
 {
 	int i = 0;
 	for (i = 0; i < server->base->n_req_heads; ++i) {
-		struct request *started_at = server->base->req_heads[i];
-		struct request *req = started_at;
+		struct request *started_at, *req;
+
+		/* First give up on the requests that are out of attempts.
+		 * request_finished() unlinks and frees the request (and may
+		 * promote waiting requests into this list), so the walk is
+		 * restarted after each of them. */
+restart:
+		started_at = req = server->base->req_heads[i];
 		if (!req)
 			continue;
+		do {
+			if (req->ns == server && (req->handle->tcp_flags & DNS_QUERY_USEVC) &&
+			    req->tx_count >= req->base->global_max_retransmits) {
+				log(EVDNS_LOG_DEBUG, "Giving up on request %p; tx_count==%d",
+					(void *)req, req->tx_count);
+				reply_schedule_callback(req, 0, DNS_ERR_TIMEOUT, NULL);
+				request_finished(req, &REQ_HEAD(req->base, req->trans_id), 1);
+				goto restart;
+			}
+			req = req->next;
+		} while (req != started_at);
 
+		/* Then retransmit the others; this does not change the list. */
 		do {
 			if (req->ns == server && (req->handle->tcp_flags & DNS_QUERY_USEVC)) {
-				if (req->tx_count >= req->base->global_max_retransmits) {
-					log(EVDNS_LOG_DEBUG, "Giving up on request %p; tx_count==%d",
-						(void *)req, req->tx_count);
-					reply_schedule_callback(req, 0, DNS_ERR_TIMEOUT, NULL);
-					request_finished(req, &REQ_HEAD(req->base, req->trans_id), 1);
-				} else {
-					(void) evtimer_del(&req->timeout_event);
-					evdns_request_transmit(req);
-				}
+				(void) evtimer_del(&req->timeout_event);
+				evdns_request_transmit(req);
 			}
 			req = req->next;
 		} while (req != started_at);
